@@ -292,6 +292,60 @@ def reader_tags(body):
     return tags, strlim, ptrlim
 
 
+WCHECK_SHAPE = [
+    ("DEPTH", "depth", "function nesting depth"),
+    ("NAME_LEN", "name_len", "function name length"),
+    ("CONSTS", "func.constants.len()", "constants"),
+    ("CODE", "func.bytecode.len()", "bytecode length"),
+    ("NESTED", "func.nested_functions.len()", "nested functions"),
+    ("UPVALS", "func.upvalue_descriptors.len()", "upvalue descriptors"),
+    ("LINES", "func.lines.len()", "line info entries"),
+    ("GLOBALS", "names.len()", "global names"),
+    ("GLOBAL_NAME_LEN", "name.len()", "global name length"),
+    ("STRING_LEN", "s.as_bytes().len()", "string length"),
+]
+
+
+def coq_limit_expr(e, consts):
+    """MAX_A.min(MAX_B) | MAX_A  ->  Coq term"""
+    e = norm(e)
+    m = re.fullmatch(r"(MAX_\w+)\.min\((MAX_\w+)\)", e)
+    names = [m.group(1), m.group(2)] if m else [e]
+    for n in names:
+        if n not in consts:
+            raise ExtractError(f"{SRC}: check_function: limit {n!r} is not one of the MAX_* constants")
+    return f"N.min {names[0]} {names[1]}" if m else names[0]
+
+
+def writer_checks(text, consts):
+    """check_function: which expression is compared with which limit, in the code's order"""
+    body = fn_body(text, "check_function")
+    calls = [(norm(a), norm(b), c) for a, b, c in
+             re.findall(r"check_len\(\s*([^,]+?),\s*([^,]+?),\s*\"([^\"]+)\",?\s*\)\?", body, flags=re.S)]
+    got = [(a, c) for a, _, c in calls]
+    want = [(a, c) for _, a, c in WCHECK_SHAPE]
+    first_diff([f"{a} :: {c}" for a, c in got], [f"{a} :: {c}" for a, c in want], "check_function")
+    cl = norm(fn_body(text, "check_len"))
+    if cl != "if len > limit { return Err(BinaryError::LimitExceeded { what, limit }); } Ok(())":
+        raise ExtractError(f"{SRC}: check_len changed shape: {cl!r}")
+    nb = norm(body)
+    for need, what in [
+        ("let name_len = func.name.as_ref().map_or(0, |n| n.len());", "name length expression"),
+        ("let names = func.global_layout.names();", "global names binding"),
+        ("if let Some(func_idx) = constant.as_nested_fn_marker() { if func_idx >= func.nested_functions.len() { return Err(BinaryError::InvalidNestedFunctionIndex", "nested-function marker check"),
+        ("for nested in &func.nested_functions { check_function(nested, heap, depth + 1)?; }", "recursion into nested functions"),
+    ]:
+        if need not in nb:
+            raise ExtractError(f"{SRC}: check_function: {what} not recognised")
+    for fn, call in (("try_serialize", "check_function(func, heap, 0)?; let mut writer = BinaryWriter::new(); writer.write_program(func, heap); Ok(writer.into_bytes())"),):
+        b = norm(fn_body(text, fn))
+        if b != call:
+            raise ExtractError(f"{SRC}: {fn} changed shape: {b!r}")
+    if "check_function(func, heap, 0)?;" not in norm(fn_body(text, "try_serialize_with_manifest")):
+        raise ExtractError(f"{SRC}: try_serialize_with_manifest does not validate first")
+    return {key: coq_limit_expr(lim, consts) for (key, _, _), (_, lim, _) in zip(WCHECK_SHAPE, calls)}
+
+
 def header_shape(text):
     wp = norm(fn_body(text, "write_program"))
     want_w = ("self.write_bytes(MAGIC); self.write_u16(VERSION); self.write_u16(0); let func_count = count_functions(func); "
@@ -330,7 +384,7 @@ def gen_avbc_layout():
         raise ExtractError(f"{SRC}: MAGIC not recognised")
     magic = [ord(c) for c in mm.group(1)]
     maxes = ["MAX_BYTECODE_LEN", "MAX_CONSTANTS", "MAX_NESTED_FUNCTIONS", "MAX_UPVALUE_DESCRIPTORS", "MAX_LINES",
-             "MAX_GLOBAL_NAMES", "MAX_STRING_LEN", "MAX_NESTING_DEPTH", "MAX_SECTION_LEN", "MAX_POINTER_PAYLOAD"]
+             "MAX_GLOBAL_NAMES", "MAX_STRING_LEN", "MAX_NESTING_DEPTH", "MAX_SECTION_LEN", "MAX_POINTER_PAYLOAD", "MAX_U16_FIELD"]
     c = consts_of(text, ["VERSION"] + maxes)
     header_shape(text)
     wf = fn_body(text, "write_function")
@@ -358,6 +412,10 @@ def gen_avbc_layout():
     out.append("(* which limit guards which count in read_function / read_constant *)\n")
     for key in ["DEPTH", "NAME_LEN", "CONSTS", "CODE", "NESTED", "UPVALS", "LINES", "GLOBALS", "GLOBAL_NAME_LEN", "STRING_LEN", "PTR"]:
         out.append(f"Definition LIM_{key} : N := {lim[key]}.\n")
+    wl = writer_checks(text, c)
+    out.append("(* what the writer refuses to write (check_function), in its order *)\n")
+    for key, _, _ in WCHECK_SHAPE:
+        out.append(f"Definition WLIM_{key} : N := {wl[key]}.\n")
     out.append("(* constant tags: as written by write_constant / as accepted by read_constant *)\n")
     for k in ["null", "bool", "int", "float", "string", "func", "ptr"]:
         out.append(f"Definition TAGW_{k.upper()} : N := {wtags[k]}.\n")
